@@ -175,10 +175,16 @@ fn family_edges(rng: &mut Rng, fam: Family, n: usize) -> Vec<(usize, usize)> {
     match fam {
         Family::Empty | Family::Single | Family::Isolated => {}
         Family::SparseEr | Family::DenseEr => {
-            let p = if fam == Family::SparseEr { rng.range(5, 30) } else { rng.range(40, 90) } as u64;
+            let mut p = if fam == Family::SparseEr { rng.range(5, 30) } else { rng.range(40, 90) } as u64;
+            let mut den = 100;
+            if n > 100 {
+                // keep big graphs sparse: about 2 edges per function
+                p = 2;
+                den = n as u64;
+            }
             for i in 0..n {
                 for j in i + 1..n {
-                    if rng.chance(p, 100) {
+                    if rng.chance(p, den) {
                         e.push((perm[i], perm[j]));
                     }
                 }
